@@ -372,6 +372,124 @@ static void run_gds(Out& out, Rng& g, const std::vector<IPoly>& polys, uint64_t 
     }
 }
 
+// ---------------------------------------------------------------- GDSII writer: outlines of non-simple paths (second and
+// third block of Cell::to_gds).  A FlexPath / RobustPath with an arc at a fine tolerance has an outline of several hundred
+// vertices; the file must hold pieces within the limit that cover that outline (snapped to the database grid).
+static void run_gds_path(Out& out, Rng& g, uint64_t max_points, bool robust, const std::string& dir) {
+    const double unit = 1.0, precision = 1.0 / 1024;  // dyadic grid, exact in a GDSII real
+    const int64_t S = 1024;
+    double width = 0.5 * (double)g.range(2, 12), radius = width * (double)g.range(2, 6), a1 = 0.25 * (double)g.range(2, 10);
+    double len = (double)g.range(4, 30);
+    bool second_arc = g.coin();
+    std::string fn = dir + "/c12_tmp.gds";
+    std::string res = in_child(
+        [&](FILE* o) {
+            Library lib = {};
+            lib.init("LIB", unit, precision);
+            Cell* cell = (Cell*)allocate_clear(sizeof(Cell));
+            cell->name = copy_string("TOP", NULL);
+            lib.cell_array.append(cell);
+            Array<Polygon*> outline = {};
+            if (!robust) {
+                FlexPath* fp = (FlexPath*)allocate_clear(sizeof(FlexPath));
+                fp->init(Vec2{0, 0}, 1, width, 0, 1e-4, make_tag(3, 7));
+                fp->segment(Vec2{len, 0}, NULL, NULL, true);
+                fp->arc(radius, radius, -M_PI / 2, -M_PI / 2 + a1, 0, NULL, NULL);
+                if (second_arc) fp->arc(2 * radius, 2 * radius, M_PI / 2 + a1, M_PI / 2 + a1 - 0.7, 0, NULL, NULL);
+                fp->to_polygons(false, 0, outline);
+                cell->flexpath_array.append(fp);
+            } else {
+                RobustPath* rp = (RobustPath*)allocate_clear(sizeof(RobustPath));
+                rp->num_elements = 1;
+                rp->elements = (RobustPathElement*)allocate_clear(sizeof(RobustPathElement));
+                rp->init(Vec2{0, 0}, width, 0, 1e-4, 1000, make_tag(3, 7));
+                rp->segment(Vec2{len, 0}, NULL, NULL, true);
+                rp->arc(radius, radius, -M_PI / 2, -M_PI / 2 + a1, 0, NULL, NULL);
+                if (second_arc) rp->arc(2 * radius, 2 * radius, M_PI / 2 + a1, M_PI / 2 + a1 - 0.7, 0, NULL, NULL);
+                rp->to_polygons(false, 0, outline);
+                cell->robustpath_array.append(rp);
+            }
+            ErrorCode e = lib.write_gds(fn.c_str(), max_points, NULL);
+            ErrorCode e2 = ErrorCode::NoError;
+            Library back = read_gds(fn.c_str(), 0, 1e-12, NULL, &e2);
+            fprintf(o, "done %d %d ", (int)e, (int)e2);
+            if (back.cell_array.count == 1) {
+                Array<Polygon*>& pa = back.cell_array[0]->polygon_array;
+                bool tags = true;
+                for (uint64_t i = 0; i < pa.count; i++)
+                    if (pa[i]->tag != make_tag(3, 7)) tags = false;
+                fprintf(o, "%s ", tags ? "tags-ok" : "tags-bad");
+                put_group(o, outline);
+                fprintf(o, " ");
+                put_group(o, pa);
+            } else {
+                fprintf(o, "nocell 0 0");
+            }
+        },
+        60);
+    bool finished = res.compare(0, 5, "done ") == 0;
+    std::vector<IPoly> pieces;
+    DGroup orig;
+    bool integral = true, tags = true;
+    int e1 = 0, e2 = 0;
+    size_t outline_vertices = 0;
+    if (finished) {
+        Reader r(res);
+        r.next();
+        e1 = (int)r.num();
+        e2 = (int)r.num();
+        tags = r.next() == "tags-ok";
+        DGroup outl = r.group();
+        for (auto& p : outl) {  // snap the outline to the database grid, as the writer does
+            DPoly q;
+            for (auto& v : p) q.push_back(Vec2{(double)llround(v.x * (double)S) / (double)S, (double)llround(v.y * (double)S) / (double)S});
+            outline_vertices = std::max(outline_vertices, q.size());
+            orig.push_back(q);
+        }
+        DGroup back = r.group();
+        for (auto& p : back) {
+            IPoly ip;
+            for (auto& v : p) {
+                double sx = v.x * (double)S, sy = v.y * (double)S;
+                int64_t ix = llround(sx), iy = llround(sy);
+                if (fabs(sx - (double)ix) > 1e-6 || fabs(sy - (double)iy) > 1e-6) integral = false;
+                ip.push_back({ix, iy});
+            }
+            pieces.push_back(ip);
+        }
+    }
+    Frame f;
+    f.S = S;
+    frame_add(f, orig);
+    DGroup pd;
+    for (auto& p : pieces) pd.push_back(to_double(p, (double)S));
+    std::vector<const DGroup*> all{&orig, &pd};
+    std::vector<FPt> pts = gen_samples(g, all, f, 10, 40, 100, 3.0);
+    std::string payload = "S " + hex_u64((uint64_t)S) + " K " + std::to_string(f.K) + " L " + hex_u64(max_points) + " O " + ser_group(orig, f) +
+                          " R " + hex_u64(pieces.size());
+    for (auto& p : pieces) payload += " " + ser_ipoly_frame(p, f);
+    payload += " P " + ser_points(pts);
+    std::string id = out.add("gds", payload);
+    out.count(robust ? "gds:shape:robustpath-outline" : "gds:shape:flexpath-outline");
+    out.count("gds:grid:dyadic");
+    if (!finished) {
+        out.I(id, res.substr(0, 40));
+        out.P(id, "FAIL c12-gds-crash write_gds/read_gds did not return: " + res.substr(0, 40));
+        return;
+    }
+    out.I(id, "ok");
+    if (e1 || e2) out.P(id, "FAIL c12-gds-error write_gds or read_gds returned an error code");
+    else if (!integral) out.P(id, "FAIL c12-gds-offgrid a vertex read back is not on the database grid");
+    else if (!tags) out.P(id, "FAIL c12-gds-tag a written piece lost the layer/datatype");
+    else {
+        size_t worst = 0;
+        for (auto& p : pieces) worst = std::max(worst, p.size());
+        if (max_points > 4 && outline_vertices > max_points && worst > max_points)
+            out.P(id, "FAIL c12-gds-vertex-limit a written piece of a path outline has " + std::to_string(worst) + " vertices, limit " + std::to_string(max_points));
+        else out.P(id, "ok");
+    }
+}
+
 // ---------------------------------------------------------------- shapes
 static IPoly big_shape(Rng& g, int target, std::string& name) {
     for (int tries = 0; tries < 30; tries++) {
@@ -489,7 +607,8 @@ static void gen_case(Out& out, Rng& g, const std::string& dir) {
         }
         uint64_t limit = g.chance(15) ? g.below(5) : 5 + g.below(196);
         if (g.coin() && ip.size() > 12) limit = std::max<uint64_t>(5, ip.size() - 1 - g.below(ip.size() / 2));  // just above the limit
-        run_gds(out, g, polys, limit, g.coin(), dir, shape);
+        if (g.chance(30)) run_gds_path(out, g, limit < 5 ? limit : 5 + g.below(196), g.coin(), dir);
+        else run_gds(out, g, polys, limit, g.coin(), dir, shape);
     }
 }
 
